@@ -2030,6 +2030,22 @@ return 1;""",
             # Useful for debugging.  Requested and found path.
             fmt_result.stmt0 = statements.compute_name(stmts)
             fmt_result.stmt1 = result_blk.name
+            if sgroup == "string" and ast.attrs["owner"] == "caller" \
+               and ast.is_pointer():
+                # The contents have been copied into the Python string,
+                # release the std::string owned by the caller.
+                capsule_type = result_typemap.cxx_type + " *"
+                fmt_result.capsule_order = self.add_capsule_code(
+                    self.language + " " + capsule_type, [
+                        "{} cxx_ptr =\t static_cast<{}>(ptr);".format(
+                            capsule_type, capsule_type),
+                        "delete cxx_ptr;",
+                    ])
+                result_blk = util.Scope(
+                    result_blk,
+                    cleanup=result_blk.cleanup + [
+                        "{PY_release_memory_function}({capsule_order},"
+                        "\t {cxx_nonconst_ptr});"])
             if sgroup == "native" and ast.attrs["owner"] == "caller" \
                and stmts[-1] == "list" and ast.is_pointer():
                 # The values have been copied into the list,
